@@ -296,4 +296,7 @@ def opaque_call(engine, st, fr, fn, args, kwargs, star, starkw, node):
     yield st_r, _Raise(exc)
     ret = fresh_any(engine, st, "user_ret")
     st.trace[-1] = _with(ev, ret=ret.t)
+    rt = getattr(engine.cfg, "opaque_result", None)
+    if rt is not None:
+        ret = rt(engine, st, fr, st.trace[-1], ret, node) or ret
     yield st, ret
